@@ -119,6 +119,13 @@ def gen_cases(rng, tier, scale):
         for tg in ('{{~a}}', '{{~#if a}}y{{/if}}', '{{#if a}}y{{~/if}}', '{{#if a}}y{{~else}}n{{/if}}', '{{~> p}}', '{{~{a}}}', '{{{{~raw}}}}r{{{{/raw}}}}'):
             srcs.append((wch + tg, 'unicode-ws-before-tilde'))
             srcs.append(('x' + wch + tg + wch + 'y', 'unicode-ws-before-tilde'))
+    # ... and behind a trailing `~`: the run the trim removes may be wider than the run the grammar skipped
+    for wch in ('\x0b', '\x0c', '\u0085', '\u00a0', '\u2003', '\u2028', '\u3000', ' \x0c ', '\n\u00a0\n', '\u00a0é'):
+        for tg in ('{{a~}}', '{{#if a~}}y{{/if}}', '{{#if a}}y{{/if~}}', '{{#if a}}y{{else~}}n{{/if}}', '{{#if a}}y{{else if b~}}n{{/if}}', '{{> p~}}',
+                   '{{{a~}}}', '{{{{raw~}}}}r{{{{/raw}}}}', '{{{{raw}}}}r{{{{/raw~}}}}', '{{#*inline "i"~}}x{{/inline~}}', '{{#each a as |v|~}}y{{/each}}'):
+            srcs.append((tg + wch + 'b', 'unicode-ws-after-tilde'))
+            srcs.append((tg + wch, 'unicode-ws-after-tilde'))
+            srcs.append((tg + wch + '\\{{b', 'unicode-ws-after-tilde'))
     for c in COMMENTS:
         for ctx in ('%s', 'a %s b', '{{#if a}}\n  %s\n{{/if}}', '{{x~}} %s {{~y}}'):
             srcs.append((ctx % c, 'comment'))
